@@ -5,6 +5,7 @@ import (
 	"testing"
 
 	"github.com/tsawler/tabula"
+	"github.com/tsawler/tabula/model"
 )
 
 const docxCT = `<?xml version="1.0"?><Types xmlns="http://schemas.openxmlformats.org/package/2006/content-types"><Default Extension="xml" ContentType="application/xml"/><Default Extension="rels" ContentType="application/vnd.openxmlformats-package.relationships+xml"/><Override PartName="/word/document.xml" ContentType="application/vnd.openxmlformats-officedocument.wordprocessingml.document.main+xml"/></Types>`
@@ -203,5 +204,89 @@ func TestOdtSpanInlineContent(t *testing.T) {
 	want := "start bold and italic  tail end"
 	if strings.TrimSpace(got) != want {
 		t.Fatalf("text = %q, want %q", strings.TrimSpace(got), want)
+	}
+}
+
+// C16 / R16.16: processVerticalMerges recorded the row where a vertical merge starts and reset the record in the very
+// same iteration (the else-if for 'not a continuation' follows the assignment), so no continuation cell ever found
+// its start: the RowSpan of a vMerge cell stayed 1 in the document model.
+func TestDocxVerticalMergeRowSpan(t *testing.T) {
+	cell := func(txt, vm string) string {
+		pr := ""
+		if vm != "" {
+			pr = `<w:tcPr><w:vMerge` + vm + `/></w:tcPr>`
+		}
+		return `<w:tc>` + pr + `<w:p><w:r><w:t>` + txt + `</w:t></w:r></w:p></w:tc>`
+	}
+	row := func(cells ...string) string { return `<w:tr>` + strings.Join(cells, "") + `</w:tr>` }
+	p := docxOf(t, `<w:tbl>`+
+		row(cell("tall", ` w:val="restart"`), cell("b1", "")) +
+		row(cell("", ` `), cell("b2", "")) +
+		row(cell("", ` `), cell("b3", "")) +
+		row(cell("last", ""), cell("b4", "")) + `</w:tbl>`)
+	doc, _, err := tabula.Open(p).Document()
+	if err != nil {
+		t.Fatal(err)
+	}
+	found := false
+	for _, pg := range doc.Pages {
+		for _, el := range pg.Elements {
+			tb, ok := el.(*model.Table)
+			if !ok {
+				continue
+			}
+			for _, r := range tb.Rows {
+				for _, c := range r {
+					if strings.TrimSpace(c.Text) == "tall" {
+						found = true
+						if c.RowSpan != 3 {
+							t.Errorf("the cell merged over three rows has RowSpan %d in the document model", c.RowSpan)
+						}
+					}
+					if strings.TrimSpace(c.Text) == "last" && c.RowSpan != 1 {
+						t.Errorf("the unmerged cell has RowSpan %d", c.RowSpan)
+					}
+				}
+			}
+		}
+	}
+	if !found {
+		t.Fatalf("table cell not found in the document model")
+	}
+}
+
+// C16: <w:vMerge w:val="continue"/> is the explicit spelling of a continuation cell (ISO/IEC 29500-1 17.4.85; the
+// attribute defaults to continue when absent). parseCell only recognised the attribute-less form, so the explicit one
+// was taken for a cell of its own and the merge above it ended there (RowSpan 1).
+func TestDocxVerticalMergeExplicitContinue(t *testing.T) {
+	cell := func(txt, vm string) string {
+		pr := ""
+		if vm != "" {
+			pr = `<w:tcPr><w:vMerge` + vm + `/></w:tcPr>`
+		}
+		return `<w:tc>` + pr + `<w:p><w:r><w:t>` + txt + `</w:t></w:r></w:p></w:tc>`
+	}
+	row := func(cells ...string) string { return `<w:tr>` + strings.Join(cells, "") + `</w:tr>` }
+	p := docxOf(t, `<w:tbl>`+
+		row(cell("tall", ` w:val="restart"`), cell("b1", "")) +
+		row(cell("", ` w:val="continue"`), cell("b2", "")) + `</w:tbl>`)
+	doc, _, err := tabula.Open(p).Document()
+	if err != nil {
+		t.Fatal(err)
+	}
+	for _, pg := range doc.Pages {
+		for _, el := range pg.Elements {
+			tb, ok := el.(*model.Table)
+			if !ok {
+				continue
+			}
+			for _, r := range tb.Rows {
+				for _, c := range r {
+					if strings.TrimSpace(c.Text) == "tall" && c.RowSpan != 2 {
+						t.Errorf("the cell merged over two rows (explicit continue) has RowSpan %d", c.RowSpan)
+					}
+				}
+			}
+		}
 	}
 }
